@@ -1,6 +1,6 @@
 //! C08 - UDP datagrams are delivered intact for arbitrarily long sessions.
 //! Explicit-state search over (receive buffer, spare capacity, adaptor buffer) driven through real
-//! loopback sockets in lock-step (one datagram in flight, 2 s watchdog on every wait).
+//! loopback sockets in lock-step (one datagram or one burst of 2-3 datagrams in flight, watchdog on every wait).
 
 use std::{
     collections::BTreeMap,
@@ -89,19 +89,39 @@ fn frame(compressed: bool, len: usize, salt: u8) -> Vec<u8> {
     }
 }
 
-fn compositions(compressed: bool, tier: Tier) -> Vec<Vec<usize>> {
+/// one step of a history = one datagram, or a burst of datagrams sent back to back before the
+/// connection is read
+type Step = Vec<Vec<usize>>;
+
+fn compositions(compressed: bool, tier: Tier) -> Vec<Step> {
+    let (singles, bursts) = compositions_raw(compressed, tier);
+    let mut out: Vec<Step> = singles.into_iter().map(|d| vec![d]).collect();
+    out.extend(bursts);
+    out
+}
+
+fn compositions_raw(compressed: bool, tier: Tier) -> (Vec<Vec<usize>>, Vec<Step>) {
     if compressed {
         let mut v = vec![vec![4], vec![12], vec![252], vec![1016], vec![1020], vec![508, 512]];
         if tier == Tier::Thorough {
             v.extend([vec![8], vec![508], vec![4; 255], vec![252; 4], vec![16], vec![64], vec![1000], vec![1012], vec![4, 1016], vec![8, 8, 8]]);
         }
-        v
+        // bursts: two or three datagrams queued on the socket before the connection reads
+        let mut b: Vec<Step> = vec![vec![vec![1016], vec![8]], vec![vec![600], vec![600]]];
+        if tier == Tier::Thorough {
+            b.extend([vec![vec![4], vec![4], vec![4]], vec![vec![508, 512], vec![1020]], vec![vec![8], vec![1016]]]);
+        }
+        (v, b)
     } else {
         let mut v = vec![vec![4], vec![12], vec![252], vec![252; 4], vec![100, 152]];
         if tier == Tier::Thorough {
             v.extend([vec![8], vec![4; 250], vec![16], vec![248], vec![252, 252]]);
         }
-        v
+        let mut b: Vec<Step> = vec![vec![vec![252; 4], vec![12]], vec![vec![252, 252], vec![252, 252, 252]]];
+        if tier == Tier::Thorough {
+            b.extend([vec![vec![4], vec![4], vec![4]], vec![vec![12], vec![252; 4]]]);
+        }
+        (v, b)
     }
 }
 
@@ -126,12 +146,23 @@ fn expected(compressed: bool, frames: &[Vec<u8>]) -> Vec<String> {
     }).collect()
 }
 
-fn datagram(compressed: bool, comp: &[usize], step: usize) -> (Vec<u8>, Vec<Vec<u8>>) {
-    let frames: Vec<Vec<u8>> = comp.iter().enumerate().map(|(i, l)| frame(compressed, *l, ((step * 31 + i * 7) % 250) as u8 + 1)).collect();
-    (frames.concat(), frames)
+/// the datagrams of one step and all their frames in order
+fn datagram(compressed: bool, comp: &Step, step: usize) -> (Vec<Vec<u8>>, Vec<Vec<u8>>) {
+    let mut dgrams = vec![];
+    let mut all = vec![];
+    for (d, lens) in comp.iter().enumerate() {
+        let frames: Vec<Vec<u8>> = lens.iter().enumerate().map(|(i, l)| frame(compressed, *l, ((step * 31 + d * 13 + i * 7) % 250) as u8 + 1)).collect();
+        dgrams.push(frames.concat());
+        all.extend(frames);
+    }
+    (dgrams, all)
 }
 
-fn run_blocking(compressed: bool, comps: &[Vec<usize>], hist: &[u8]) -> Run {
+fn sizes_of(d: &[Vec<u8>]) -> String {
+    d.iter().map(|x| x.len().to_string()).collect::<Vec<_>>().join("+")
+}
+
+fn run_blocking(compressed: bool, comps: &[Step], hist: &[u8]) -> Run {
     let mut out = Run::default();
     let peer = std::net::UdpSocket::bind("127.0.0.1:0").unwrap();
     let sock = std::net::UdpSocket::bind("127.0.0.1:0").unwrap();
@@ -144,13 +175,16 @@ fn run_blocking(compressed: bool, comps: &[Vec<usize>], hist: &[u8]) -> Run {
     for (step, ci) in hist.iter().enumerate() {
         let (bytes, frames) = datagram(compressed, &comps[*ci as usize], step);
         let want = expected(compressed, &frames);
-        peer.send(&bytes).unwrap();
+        for d in &bytes {
+            let _ = peer.send(d).unwrap();
+        }
+        // (loopback: a datagram is on the receiving socket's queue when send() returns)
         let mut got = vec![];
         for k in 0..frames.len() {
             match framed.read() {
                 Ok(p) => got.push(format!("Ok({p:?})")),
                 Err(e) => {
-                    out.problem = Some(("packet-not-delivered".into(), format!("datagram #{step} ({} bytes, {} packet(s)): read #{k} returned {e} instead of the packet (data of the datagram was lost)", bytes.len(), frames.len())));
+                    out.problem = Some(("packet-not-delivered".into(), format!("datagram #{step} ({} bytes, {} packet(s)): read #{k} returned {e} instead of the packet (data of the datagram was lost)", sizes_of(&bytes), frames.len())));
                     out.got.push(got);
                     return out;
                 },
@@ -158,7 +192,7 @@ fn run_blocking(compressed: bool, comps: &[Vec<usize>], hist: &[u8]) -> Run {
         }
         if got != want {
             let i = got.iter().zip(&want).position(|(a, b)| a != b).unwrap_or(0);
-            out.problem = Some(("packet-altered".into(), format!("datagram #{step} ({} bytes): packet #{i} differs: got {} expected {}", bytes.len(), got[i].chars().take(80).collect::<String>(), want[i].chars().take(80).collect::<String>())));
+            out.problem = Some(("packet-altered".into(), format!("datagram #{step} ({} bytes): packet #{i} differs: got {} expected {}", sizes_of(&bytes), got[i].chars().take(80).collect::<String>(), want[i].chars().take(80).collect::<String>())));
         }
         out.got.push(got);
         if out.problem.is_some() { return out; }
@@ -173,7 +207,7 @@ fn run_blocking(compressed: bool, comps: &[Vec<usize>], hist: &[u8]) -> Run {
     out
 }
 
-fn run_tokio(compressed: bool, comps: &[Vec<usize>], hist: &[u8]) -> Run {
+fn run_tokio(compressed: bool, comps: &[Step], hist: &[u8]) -> Run {
     let rt = tokio::runtime::Builder::new_current_thread().enable_io().enable_time().build().unwrap();
     rt.block_on(async {
         let mut out = Run::default();
@@ -187,18 +221,20 @@ fn run_tokio(compressed: bool, comps: &[Vec<usize>], hist: &[u8]) -> Run {
         for (step, ci) in hist.iter().enumerate() {
             let (bytes, frames) = datagram(compressed, &comps[*ci as usize], step);
             let want = expected(compressed, &frames);
-            let _ = peer.send(&bytes).await.unwrap();
+            for d in &bytes {
+                let _ = peer.send(d).await.unwrap();
+            }
             let mut got = vec![];
             for k in 0..frames.len() {
                 match tokio::time::timeout(watchdog(), framed.read()).await {
                     Ok(Ok(p)) => got.push(format!("Ok({p:?})")),
                     Ok(Err(e)) => {
-                        out.problem = Some(("packet-not-delivered".into(), format!("datagram #{step} ({} bytes, {} packet(s)): read #{k} returned {e}", bytes.len(), frames.len())));
+                        out.problem = Some(("packet-not-delivered".into(), format!("datagram #{step} ({} bytes, {} packet(s)): read #{k} returned {e}", sizes_of(&bytes), frames.len())));
                         out.got.push(got);
                         return out;
                     },
                     Err(_) => {
-                        out.problem = Some(("packet-not-delivered".into(), format!("datagram #{step} ({} bytes, {} packet(s)) arrived with {} byte(s) of spare capacity: read #{k} never returned (data of the datagram was lost)", bytes.len(), frames.len(), framed.verif_buffer().1)));
+                        out.problem = Some(("packet-not-delivered".into(), format!("datagram #{step} ({} bytes, {} packet(s)) arrived with {} byte(s) of spare capacity: read #{k} never returned (data of the datagram was lost)", sizes_of(&bytes), frames.len(), framed.verif_buffer().1)));
                         out.got.push(got);
                         return out;
                     },
@@ -206,7 +242,7 @@ fn run_tokio(compressed: bool, comps: &[Vec<usize>], hist: &[u8]) -> Run {
             }
             if got != want {
                 let i = got.iter().zip(&want).position(|(a, b)| a != b).unwrap_or(0);
-                out.problem = Some(("packet-altered".into(), format!("datagram #{step} ({} bytes): packet #{i} differs: got {} expected {}", bytes.len(), got[i].chars().take(80).collect::<String>(), want[i].chars().take(80).collect::<String>())));
+                out.problem = Some(("packet-altered".into(), format!("datagram #{step} ({} bytes): packet #{i} differs: got {} expected {}", sizes_of(&bytes), got[i].chars().take(80).collect::<String>(), want[i].chars().take(80).collect::<String>())));
             }
             out.got.push(got);
             if out.problem.is_some() { return out; }
@@ -222,7 +258,7 @@ fn run_tokio(compressed: bool, comps: &[Vec<usize>], hist: &[u8]) -> Run {
     })
 }
 
-fn run_once(imp: Impl, compressed: bool, comps: &[Vec<usize>], hist: &[u8]) -> Run {
+fn run_once(imp: Impl, compressed: bool, comps: &[Step], hist: &[u8]) -> Run {
     match guard(|| match imp {
         Impl::Blocking => run_blocking(compressed, comps, hist),
         Impl::Tokio => run_tokio(compressed, comps, hist),
@@ -232,7 +268,7 @@ fn run_once(imp: Impl, compressed: bool, comps: &[Vec<usize>], hist: &[u8]) -> R
     }
 }
 
-fn run(imp: Impl, compressed: bool, comps: &[Vec<usize>], hist: &[u8]) -> Run {
+fn run(imp: Impl, compressed: bool, comps: &[Step], hist: &[u8]) -> Run {
     let r = run_once(imp, compressed, comps, hist);
     if r.problem.is_some() && watchdog() < WATCHDOG_CONFIRM {
         // never trust a short timer under load: re-execute the history with the long watchdog
@@ -258,7 +294,9 @@ impl PartialEq for St {
     fn eq(&self, o: &Self) -> bool { self.inst == o.inst && self.canon == o.canon }
 }
 
-struct Inst { imp: Impl, compressed: bool, comps: Vec<Vec<usize>>, label: String }
+static VIOLATING: AtomicU64 = AtomicU64::new(0);
+
+struct Inst { imp: Impl, compressed: bool, comps: Vec<Step>, label: String }
 
 struct M {
     insts: Arc<Vec<Inst>>,
@@ -271,7 +309,15 @@ struct M {
 impl M {
     fn make(&self, inst: u8, hist: Vec<u8>) -> St {
         let i = &self.insts[inst as usize];
+        // every violating transition costs two watchdog periods; once a dozen have been confirmed the
+        // search is cut short (breadth-first order: the shortest witnesses are already recorded)
+        if VIOLATING.load(Ordering::Relaxed) >= 12 {
+            return St { inst, canon: (usize::MAX, 0, 0), hist, terminal: true };
+        }
         let r = run(i.imp, i.compressed, &i.comps, &hist);
+        if r.problem.is_some() {
+            let _ = VIOLATING.fetch_add(1, Ordering::Relaxed);
+        }
         let _ = self.transitions.fetch_add(1, Ordering::Relaxed);
         let terminal = r.problem.is_some() || hist.len() >= self.max_hist;
         if let Some((cat, detail)) = &r.problem {
@@ -279,7 +325,7 @@ impl M {
             let mut f = self.found.lock().unwrap();
             let better = f.get(&sig).map(|o| o.2.len() > hist.len()).unwrap_or(true);
             if better {
-                let sizes: Vec<usize> = hist.iter().map(|c| i.comps[*c as usize].iter().sum()).collect();
+                let sizes: Vec<String> = hist.iter().map(|c| i.comps[*c as usize].iter().map(|d| d.iter().sum::<usize>().to_string()).collect::<Vec<_>>().join("+")).collect();
                 let _ = f.insert(sig, (format!("{} after datagrams of {:?} bytes: {detail}", i.label, sizes), inst, hist.clone()));
             }
         }
@@ -425,7 +471,7 @@ pub fn run_check(tier: Tier, replay: Option<String>) -> i32 {
         results.push((ch.unique_state_count() as u64, trans.load(Ordering::Relaxed), ch.max_depth() as u64, found.lock().unwrap().clone(), classes.lock().unwrap().clone()));
         if tier == Tier::Quick { break; }
     }
-    if results.len() == 2 && results[0].0 != results[1].0 {
+    if results.len() == 2 && results[0].0 != results[1].0 && VIOLATING.load(Ordering::Relaxed) == 0 {
         eprintln!("MACHINERY: unique state count differs between runs ({} vs {})", results[0].0, results[1].0);
         return 4;
     }
@@ -456,9 +502,9 @@ pub fn run_check(tier: Tier, replay: Option<String>) -> i32 {
     crate::report::finish(crate::report::Outcome {
         property: "C08".into(), tier, level: "model_checking", acc,
         rule: "states = (connection receive buffer, spare capacity, adaptor buffer) reached by datagram histories; actions = one datagram of each composition {one frame of 4, 8, 12, 252, 508, 1016, 1020 B; 508+512; 255 x 4 B; 4 x 252 B (compressed) | 4, 8, 12, 252, 4 x 252, 250 x 4, 100+152 (uncompressed)} followed by as many read() calls as it holds packets; every transition re-executes the whole history on fresh loopback sockets".into(),
-        exhaustive: true, extra,
+        exhaustive: VIOLATING.load(Ordering::Relaxed) < 12, extra,
         assumptions: vec![
-            "loopback UDP with one datagram in flight preserves boundaries and order; every wait carries a 2 s watchdog that turns a hang into a reported violation".into(),
+            "loopback UDP with one datagram (or one burst of 2-3 datagrams, < 3 kB) in flight preserves boundaries and order; every wait carries a 2 s watchdog that turns a hang into a reported violation".into(),
             "writes: every kind's B1 packet, both implementations and modes, must arrive as exactly one datagram equal to Codec::encode(p)".into(),
         ],
         started,
